@@ -543,13 +543,64 @@ func ruleC14Trim(p *Prog, r *Res) {
 					conj = append(conj, e)
 				}
 				split(ifs.Cond)
+				// the sliced expression, or — when it is a local defined inside this if body from an expression whose
+				// variables are not assigned between the guard and the definition (`sub := s[0]`) — that expression
+				isX := func(e ast.Expr) bool {
+					t := types.ExprString(e)
+					if t == xs {
+						return true
+					}
+					id, ok := ast.Unparen(sl.X).(*ast.Ident)
+					if !ok {
+						return false
+					}
+					o := info.Uses[id]
+					var defs []*ast.AssignStmt
+					var rhs ast.Expr
+					ast.Inspect(f.Body(), func(y ast.Node) bool {
+						if as, ok := y.(*ast.AssignStmt); ok && len(as.Lhs) == len(as.Rhs) {
+							for i, l := range as.Lhs {
+								if identObj(info, l) == o {
+									defs = append(defs, as)
+									rhs = as.Rhs[i]
+								}
+							}
+						}
+						return true
+					})
+					if len(defs) != 1 || !within(defs[0], ifs.Body) || types.ExprString(rhs) != t {
+						return false
+					}
+					// nothing the definition reads is assigned between the guard and the definition
+					clean := true
+					roots := map[types.Object]bool{}
+					ast.Inspect(rhs, func(y ast.Node) bool {
+						if rid, ok := y.(*ast.Ident); ok {
+							if ro := info.Uses[rid]; ro != nil {
+								roots[ro] = true
+							}
+						}
+						return true
+					})
+					ast.Inspect(ifs.Body, func(y ast.Node) bool {
+						if as, ok := y.(*ast.AssignStmt); ok && as.Pos() < defs[0].Pos() {
+							for _, l := range as.Lhs {
+								if roots[identObj(info, l)] {
+									clean = false
+								}
+							}
+						}
+						return true
+					})
+					return clean
+				}
 				pre, suf := "", ""
 				hasPre, hasSuf := false, false
 				for _, c := range conj {
 					switch cc := c.(type) {
 					case *ast.BinaryExpr:
 						// len(X) >= k / > k / != 0
-						if l2, ok := ast.Unparen(cc.X).(*ast.CallExpr); ok && isBuiltin(info, l2, "len") && types.ExprString(l2.Args[0]) == xs {
+						if l2, ok := ast.Unparen(cc.X).(*ast.CallExpr); ok && isBuiltin(info, l2, "len") && isX(l2.Args[0]) {
 							if kv, ok := info.Types[cc.Y]; ok && kv.Value != nil {
 								k, _ := constant.Int64Val(kv.Value)
 								switch cc.Op {
@@ -565,7 +616,7 @@ func ruleC14Trim(p *Prog, r *Res) {
 							}
 						}
 					case *ast.CallExpr:
-						if fn := p.Callee(f.Pkg, cc); fn != nil && len(cc.Args) == 2 && types.ExprString(cc.Args[0]) == xs {
+						if fn := p.Callee(f.Pkg, cc); fn != nil && len(cc.Args) == 2 && isX(cc.Args[0]) {
 							if lv, ok := info.Types[cc.Args[1]]; ok && lv.Value != nil && lv.Value.Kind() == constant.String {
 								switch fn.FullName() {
 								case "strings.HasPrefix":
